@@ -125,13 +125,14 @@ def _is_closure_call(t):
     return bool(FN_CALL.match(t.get("cpath") or ""))
 
 
-def coverage_resolved(prog, fn, sink=_is_visit_sink, depth=0):
+def coverage_resolved(prog, fn, sink=_is_visit_sink, depth=0, param_seeds=None):
     """Slots (adt, variant, field) whose value may reach a *descent* in fn or its closures: a call
     to a method of the traversal trait (visit_*), or - inside higher-order helpers of the AST types
     (e.g. bi_tuple's try_map_right) that are handed a closure - the closure invocation.
     Flow-insensitive: slots(local) is the union over all definitions of the local, results of calls
     derive from their arguments (iterator adapters, as_ref, unboxing ...)."""
-    key = (id(prog), fn.id, sink.__name__)
+    key = (id(prog), fn.id, sink.__name__,
+           tuple(sorted((l, tuple(sorted(map(str, v)))) for l, v in (param_seeds or {}).items())))
     if key in _COV_MEMO:
         return _COV_MEMO[key]
     _COV_MEMO[key] = set()
@@ -162,6 +163,9 @@ def coverage_resolved(prog, fn, sink=_is_visit_sink, depth=0):
         if f.id in seeds:
             for l in range(2, f.argc + 1):
                 slots[l] = set(seeds[f.id])
+        if f is fn and param_seeds:
+            for l, v in param_seeds.items():
+                slots.setdefault(l, set()).update(v)
 
         def place_slots(p):
             res = set(slots.get(p[0], ()))
@@ -235,6 +239,15 @@ def coverage_resolved(prog, fn, sink=_is_visit_sink, depth=0):
             for c in cl:
                 seeds.setdefault(c, set()).update(other)
             if not sink(t):
+                # a private helper of the pass that is handed a part of the node (`&f.body`) and
+                # descends into it on the caller's behalf
+                g = prog.fns.get(t.get("res") or mir.callee_of(t))
+                if g is not None and depth < 2 and g.id != fn.id and g.kind != "closure" and g.crate == fn.crate \
+                        and g.file == fn.file and not g.trait_item:
+                    ps = {i + 1: op_slots(a) for i, a in enumerate(t["args"])}
+                    ps = {l: v for l, v in ps.items() if v}
+                    if ps:
+                        out |= coverage_resolved(prog, g, sink, depth + 1, ps)
                 continue
             for a in t["args"]:
                 out |= op_slots(a)
@@ -430,25 +443,37 @@ def r9_string_growth_is_bounded(ctx, rule="C08.R9"):
     if len(fs) != 1:
         raise CheckError("anchor Variant::plus: %d matches" % len(fs))
     f = fs[0]
-    body = f.body
-    pv = mir.Prov(body)
-    builds = [b for b, blk in enumerate(body.blocks) for st in blk["s"]
-              if st["k"] == "assign" and st["r"].get("k") == "agg" and (st["r"].get("adt") or "").endswith("::Variant")
-              and st["r"].get("variant") == "VString" and not body.is_cleanup(b)]
-    if not builds:
-        raise CheckError("%s: Variant::plus builds no VString" % rule)
-    guarded = True
-    for b in builds:
-        ok = False
-        for d in range(body.nblocks):
-            t = body.term(d)
-            if t["k"] != "switch" or not body.dominates(d, b) or t.get("ty") != "bool":
+
+    def vstring_builds(g):
+        return [b for b, blk in enumerate(g.body.blocks) for st in blk["s"]
+                if st["k"] == "assign" and st["r"].get("k") == "agg"
+                and (st["r"].get("adt") or "").endswith("::Variant")
+                and st["r"].get("variant") == "VString" and not g.body.is_cleanup(b)]
+
+    def length_guard_dominates(g, b):
+        pv = mir.Prov(g.body)
+        for d in range(g.body.nblocks):
+            t = g.body.term(d)
+            if t["k"] != "switch" or not g.body.dominates(d, b) or t.get("ty") != "bool":
                 continue
             o = pv.of_operand(t["o"])
             if o[0] == "bin" and o[1] in ("Gt", "Ge", "Lt", "Le") and \
                     mir.origin_mentions(o, lambda z: z[0] == "call" and z[1].split("::")[-1] == "len"):
-                ok = True
-        guarded = guarded and ok
+                return True
+        return False
+
+    # the string arm may live in a helper of the same crate called from plus: the guard then sits
+    # in the helper, or in plus before the call
+    sites = [(f, b, None) for b in vstring_builds(f)]
+    for cb, t in f.body.calls():
+        g = prog.fns.get(t.get("res") or t.get("callee"))
+        if g is None or g.id == f.id or g.crate != f.crate or f.body.is_cleanup(cb):
+            continue
+        sites += [(g, b, cb) for b in vstring_builds(g)]
+    if not sites:
+        raise CheckError("%s: Variant::plus builds no VString" % rule)
+    guarded = all(length_guard_dominates(g, b) or (cb is not None and length_guard_dominates(f, cb))
+                  for g, b, cb in sites)
     ctx.decide(guarded, rule, rule + ":Variant::plus:length-checked", f.loc,
                "the concatenated length is compared with a limit before the string is built",
                "Variant::plus concatenates two strings without comparing the combined length with a limit: "
